@@ -16,10 +16,87 @@ theorem relaxedFields_eq (l : List (String × Y)) : relaxedFields l = l.flatMap 
   | nil => simp [relaxedFields]
   | cons f rest ih => obtain ⟨k, v⟩ := f; simp [relaxedFields, ih]
 
+/-! equation lemmas of the mutual walk, stated by hand (all hold by `rfl`) -/
+theorem lastRules_nil : lastRules [] = none := by rfl
+theorem lastRules_cons_seq (k : String) (i : Nat) (items : List Y) (rest : List (String × Y)) :
+    lastRules ((k, .seq i items) :: rest) = (lastRules rest).or (if k = "rules" then some (keptOf items ++ nestedOf items) else none) := by rfl
+theorem lastRules_cons_scalar (k : String) (i : Nat) (x : String) (rest : List (String × Y)) :
+    lastRules ((k, .scalar i x) :: rest) = (lastRules rest).or none := by
+  have : lastRules ((k, .scalar i x) :: rest) = (lastRules rest).or (if k = "rules" then none else none) := by rfl
+  rw [this]; split <;> rfl
+theorem lastRules_cons_map (k : String) (i : Nat) (r : Bool) (fs : List (String × Y)) (rest : List (String × Y)) :
+    lastRules ((k, .map i r fs) :: rest) = (lastRules rest).or none := by
+  have : lastRules ((k, .map i r fs) :: rest) = (lastRules rest).or (if k = "rules" then none else none) := by rfl
+  rw [this]; split <;> rfl
+theorem lastRules_cons_doc (k : String) (cs : List Y) (rest : List (String × Y)) :
+    lastRules ((k, .doc cs) :: rest) = (lastRules rest).or none := by
+  have : lastRules ((k, .doc cs) :: rest) = (lastRules rest).or (if k = "rules" then none else none) := by rfl
+  rw [this]; split <;> rfl
+theorem relaxedGroups_nil : relaxedGroups [] = [] := by rfl
+theorem relaxedGroups_cons_map (i : Nat) (r : Bool) (fields : List (String × Y)) (rest : List Y) :
+    relaxedGroups (.map i r fields :: rest) = (if groupName fields ≠ "" then (lastRules fields).getD [] else []) ++ relaxedGroups rest := by rfl
+theorem relaxedGroups_cons_scalar (i : Nat) (x : String) (rest : List Y) : relaxedGroups (.scalar i x :: rest) = relaxedGroups rest := by rfl
+theorem relaxedGroups_cons_seq (i : Nat) (xs : List Y) (rest : List Y) : relaxedGroups (.seq i xs :: rest) = relaxedGroups rest := by rfl
+theorem relaxedGroups_cons_doc (xs : List Y) (rest : List Y) : relaxedGroups (.doc xs :: rest) = relaxedGroups rest := by rfl
+theorem nestedOf_nil : nestedOf [] = [] := by rfl
+theorem nestedOf_cons (x : Y) (rest : List Y) : nestedOf (x :: rest) = (if x.keeps then [] else relaxed none x) ++ nestedOf rest := by rfl
+
+/-- the structurally recursive helper of the model is "the last `rules` key that holds a sequence" -/
+theorem lastRules_spec (fields : List (String × Y)) : lastRules fields = (groupRulesSeq fields).map relaxedSeq := by
+  induction fields with
+  | nil => simp [lastRules_nil, groupRulesSeq]
+  | cons f rest ih =>
+    obtain ⟨k, v⟩ := f
+    have hrev : groupRulesSeq ((k, v) :: rest) =
+        (groupRulesSeq rest).or (if k = "rules" then seqItems? v else none) := by
+      unfold groupRulesSeq
+      simp only [List.reverse_cons, List.findSome?_append, List.findSome?_cons, List.findSome?_nil]
+      cases (if k = "rules" then seqItems? v else none) <;> simp
+    rw [hrev]
+    cases v with
+    | seq i items =>
+      rw [lastRules_cons_seq, ih]
+      cases groupRulesSeq rest with
+      | some r => simp
+      | none => by_cases hk : k = "rules" <;> simp [hk, seqItems?, relaxedSeq]
+    | scalar i x =>
+      rw [lastRules_cons_scalar, ih]
+      cases groupRulesSeq rest <;> by_cases hk : k = "rules" <;> simp [hk, seqItems?]
+    | map i r fs =>
+      rw [lastRules_cons_map, ih]
+      cases groupRulesSeq rest <;> by_cases hk : k = "rules" <;> simp [hk, seqItems?]
+    | doc cs =>
+      rw [lastRules_cons_doc, ih]
+      cases groupRulesSeq rest <;> by_cases hk : k = "rules" <;> simp [hk, seqItems?]
+
 theorem relaxedGroups_eq (l : List Y) : relaxedGroups l = l.flatMap groupContribution := by
   induction l with
-  | nil => simp [relaxedGroups]
-  | cons g rest ih => simp [relaxedGroups, ih]
+  | nil => simp [relaxedGroups_nil]
+  | cons g rest ih =>
+    cases g with
+    | map i r fields =>
+      rw [relaxedGroups_cons_map, ih, List.flatMap_cons]
+      congr 1
+      simp only [groupContribution, groupRules, lastRules_spec]
+      by_cases hn : groupName fields = ""
+      · simp [hn]
+      · simp only [ne_eq, hn, not_false_eq_true, if_true]
+        cases groupRulesSeq fields <;> simp
+    | scalar _ _ => rw [relaxedGroups_cons_scalar, ih]; simp [groupContribution]
+    | seq _ _ => rw [relaxedGroups_cons_seq, ih]; simp [groupContribution]
+    | doc _ => rw [relaxedGroups_cons_doc, ih]; simp [groupContribution]
+
+theorem nestedOf_all_keep (items : List Y) (h : ∀ x ∈ items, x.keeps = true) : nestedOf items = [] := by
+  induction items with
+  | nil => exact nestedOf_nil
+  | cons x rest ih =>
+    rw [nestedOf_cons]
+    simp only [h x (List.mem_cons_self ..), if_true, List.nil_append]
+    exact ih (fun y hy => h y (List.mem_cons_of_mem _ hy))
+
+theorem relaxedSeq_all_keep (items : List Y) (h : ∀ x ∈ items, x.keeps = true) : relaxedSeq items = items := by
+  simp only [relaxedSeq, keptOf, nestedOf_all_keep items h, List.append_nil]
+  exact List.filter_eq_self.2 h
 
 theorem flatMap_congr_mem {α β} (l : List α) (f g : α → List β) (h : ∀ x ∈ l, f x = g x) : l.flatMap f = l.flatMap g := by
   induction l with
@@ -116,7 +193,7 @@ theorem group_eq (g : Y) (h : groupOK g = true) : groupContribution g = (match g
       | seq _ items =>
         simp only [List.all_eq_true] at hv
         simp only [seqItems?, seqItems]
-        exact List.filter_eq_self.2 (fun x hx => hv x hx)
+        exact relaxedSeq_all_keep items (fun x hx => hv x hx)
       | map _ _ _ => simp at hv
       | doc _ => simp at hv
     · -- no rules key at all: neither walk finds anything
@@ -193,14 +270,14 @@ def Ctx.Quiet : Ctx → Prop
     k ≠ "groups" ∧ inner.Quiet ∧ (∀ f ∈ pre, relaxed (some f.1) f.2 = []) ∧ (∀ f ∈ post, relaxed (some f.1) f.2 = [])
 
 theorem relaxed_seq_any_key (k : String) (hk : k ≠ "groups") (i : Nat) (items : List Y) :
-    relaxed (some k) (.seq i items) = items.filter Y.keeps := by
-  simp [relaxed, hk]
+    relaxed (some k) (.seq i items) = relaxedSeq items := by
+  simp [relaxed, hk, relaxedSeq]
 
 /-- C19 (second clause, tree level): wrapping a list of rules under parent keys at any depth (none of
     them `groups`) with siblings that hold no rules yields exactly the rule nodes of the bare list -/
 theorem relaxed_wrap_invariant (c : Ctx) (hq : c.Quiet) (i : Nat) (items : List Y) (pk : String) :
     relaxed (some pk) (c.fill (.seq i items)) =
-      (match c with | .hole _ => relaxed (some pk) (.seq i items) | _ => items.filter Y.keeps) := by
+      (match c with | .hole _ => relaxed (some pk) (.seq i items) | _ => relaxedSeq items) := by
   induction c generalizing pk with
   | hole k => rfl
   | field j pre k inner post ih =>
